@@ -1,4 +1,5 @@
 import OntVerif.Proofs.Wallet
+import OntVerif.Gen.WalletImport
 /-!
 # C38 — Wallet persists its accounts and only opens them with the current password
 
@@ -38,6 +39,24 @@ theorem C38_index_consistent (w0 : W cr) (h0 : Inv w0) (ops : List Op) :
   intro a ha
   obtain ⟨id, hm, hd⟩ := mem_records.mp ha
   exact h.idx.sealOK id hm a hd
+
+/-- **Single default (all operation sequences, imports of metadata flagged default included).** A non-empty wallet has
+exactly one record with `IsDefault`, an empty one none, and `GetDefaultAccountMetadata` is that record: `ImportAccount` never
+copies the metadata's flag (see `C38_import_fields`), `SetDefaultAccount` moves the flag, `DeleteAccount` refuses the holder. -/
+theorem C38_single_default (w0 : W cr) (h0 : Inv w0) (ops : List Op) :
+    let w := W.run w0 ops
+    (w.records.filter (·.isDefault)).length = (if w.records = [] then 0 else 1) ∧
+    ∀ a ∈ w.records, a.isDefault = true → w.metaDefault = some a.meta :=
+  single_default (run_inv h0 ops)
+
+/-- the fields of the fresh `AccountData` that `ImportAccount` assigns, regenerated from `account/client.go` by factgen on
+every run: exactly the ten fields the model copies (`Alg ← KeyType`, `Param ← Curve`, the label possibly renamed) — and not
+`IsDefault`, `Lock` -/
+theorem C38_import_fields :
+    OntVerif.Gen.WalletImport.assigned =
+      [("Label", "Label"), ("PubKey", "PubKey"), ("SigSch", "SigSch"), ("Key", "Key"), ("Alg", "KeyType"),
+       ("Address", "Address"), ("EncAlg", "EncAlg"), ("Hash", "Hash"), ("Salt", "Salt"), ("Param", "Curve"), ("Label", "")] := by
+  decide
 
 /-- **Reload (all operation sequences).** Closing and reopening the wallet (`load ∘ save`; every successful mutation has
 saved) changes nothing observable: account count, metadata by index / address / label, the default account, and for every
@@ -149,7 +168,7 @@ theorem C38_reload_all_wallets (prm : Nat) (ops : List Op) :
 
 /-- witness 1 (was: duplicate-address import + delete broke reload): the second import of an address is refused -/
 theorem C38_witness_duplicate_address :
-    ((W.run (initW 1) [.imp "a" 0 1 1 1 1 1 1]).step (.imp "b" 0 1 2 1 1 2 1)).1 = .dupAddr := by decide
+    ((W.run (initW 1) [.imp "a" 0 1 1 1 1 1 1 false]).step (.imp "b" 0 1 2 1 1 2 1 false)).1 = .dupAddr := by decide
 
 /-- witness 2 (was: NewAccount ignored the wallet's scrypt parameters): the new account opens with its password -/
 theorem C38_witness_newaccount :
@@ -157,17 +176,26 @@ theorem C38_witness_newaccount :
 
 /-- witness 3 (was: ChangePassword to the empty password bricked the account): refused, the old password still opens -/
 theorem C38_witness_empty_password :
-    let w := W.run (initW 1) [.imp "a" 0 1 1 1 1 1 1]
+    let w := W.run (initW 1) [.imp "a" 0 1 1 1 1 1 1 false]
     (w.step (.changePw 1 1 0 2)).1 = .emptyPw ∧ (w.step (.changePw 1 1 0 2)).2.openIndex 0 1 = some (some 1) := by decide
 
 /-- witness 4 (was: SetLabel(a, "") poisoned the label index): a second account can drop its label too -/
 theorem C38_witness_empty_label :
-    let w := W.run (initW 1) [.imp "a" 0 1 1 1 1 1 1, .imp "b" 0 1 1 2 2 2 1, .setLabel 1 ""]
+    let w := W.run (initW 1) [.imp "a" 0 1 1 1 1 1 1 false, .imp "b" 0 1 1 2 2 2 1 false, .setLabel 1 ""]
     (w.setLabel 2 "").1 = .ok ∧ (w.reload.setLabel 2 "").1 = .ok := by decide
+
+/-- witness 5 (seeded change C38-r2: the imported metadata's default flag was kept): create A, B, make B the default, import C
+whose metadata says "default", make A the default, reopen — one flag, on A, before and after -/
+theorem C38_witness_import_flagged_default :
+    let w := W.run (initW 1) [.new "a" 1 1 1001 1001 1, .new "b" 1 1 1002 1002 2, .setDefault 1002,
+      .imp "c" 0 1 1 1 1 3 1 true, .setDefault 1001]
+    (w.records.map fun a => (a.addr, a.isDefault)) = [(1001, true), (1002, false), (1, false)] ∧
+    (w.reload.records.map fun a => (a.addr, a.isDefault)) = [(1001, true), (1002, false), (1, false)] ∧
+    (w.metaDefault.map (·.addr)) = some 1001 ∧ (w.reload.metaDefault.map (·.addr)) = some 1001 := by decide
 
 /-! ### Non-vacuity -/
 def demoOps : List Op :=
-  [.imp "a" 0 1 1 1 1 1 1, .imp "a" 0 1 2 2 2 2 1, .changePw 2 2 3 7, .setDefault 2, .setLabel 1 "c", .del 1 1, .reload]
+  [.imp "a" 0 1 1 1 1 1 1 false, .imp "a" 0 1 2 2 2 2 1 false, .changePw 2 2 3 7, .setDefault 2, .setLabel 1 "c", .del 1 1, .reload]
 
 /-- a history with a renamed duplicate label, a password change, a default move and a delete: one account `a_1` left,
 default, opening with password 3 only, to key 2 -/
